@@ -37,8 +37,8 @@ pub fn g_xinsn(i: &XInsn) -> String {
 	}
 }
 pub fn g_xsem(s: &XSem) -> String {
-	format!("{{| xs_insns := [{}]; xs_last := {}; xs_exc := [{}]; xs_lines := [{}]; xs_ranges := [{}]; xs_points := [{}] |}}",
-		s.insns.iter().map(|(l, f, i)| format!("({l}, {}, {})", g_on(f), g_xinsn(i))).collect::<Vec<_>>().join("; "),
+	format!("{{| xs_insns := {}; xs_last := {}; xs_exc := [{}]; xs_lines := [{}]; xs_ranges := [{}]; xs_points := [{}] |}}",
+		crate::asm::glist_rle(&s.insns.iter().map(|(l, f, i)| format!("({l}, {}, {})", g_on(f), g_xinsn(i))).collect::<Vec<_>>()),
 		s.last,
 		s.exc.iter().map(|(a, b, c, d)| format!("({}, {}, {}, {})", g_on(a), g_on(b), g_on(c), match d { Some(s) => format!("Some {}", gs(s)), None => "None".into() })).collect::<Vec<_>>().join("; "),
 		s.lines.iter().map(|(a, l)| format!("({}, {l})", g_on(a))).collect::<Vec<_>>().join("; "),
